@@ -427,7 +427,7 @@ def prepare(chk, prop_module=True, features=(None,)):
     obligations = []
     try:
         import extract_tables
-        probs = extract_tables.regenerate()
+        probs = extract_tables.regenerate(chk.id)
         for p in probs:
             chk.proof_broken("translator: " + p)
     except Exception as e:  # translator failure = broken obligation (fails closed)
